@@ -8,7 +8,10 @@ import os, sys, json, glob, subprocess, time, threading
 V = os.path.dirname(os.path.dirname(os.path.abspath(__file__)))
 args = sys.argv[1:]
 workers, jobs = 4, 4
+outname = "SWEEP.md"
 while args and args[0].startswith("--"):
+    if args[0] == "--out":
+        outname = args[1]; args = args[2:]; continue
     if args[0] == "--workers":
         workers = int(args[1]); args = args[2:]
     elif args[0] == "--jobs":
@@ -28,7 +31,7 @@ lock = threading.Lock()
 
 
 def write():
-    with open(os.path.join(V, "seeded", "SWEEP.md"), "w") as f:
+    with open(os.path.join(V, "seeded", outname), "w") as f:
         f.write("# Sweep of the seeded changes against /repo HEAD %s with the checks of /verif %s (quick tier)\n\n" % (head, vhead))
         f.write("| seed | change | demo unchanged | demo patched | check | labels (first 3) | s |\n|---|---|---|---|---|---|---|\n")
         for s in seeds:
